@@ -208,25 +208,9 @@ spec fn is_chain<M: Model>(m: M, ss: Seq<M::State>) -> bool {
     &&& forall|i: int| 0 <= i < ss.len() - 1 ==> is_step(m, #[trigger] ss[i], ss[i + 1])
 }
 
-// `Path::from_fingerprints` is verified in unit PATH; here it is an external function with the
-// contract of DESIGN.md C03(a).  It panics when no init state / no successor has the wanted
-// fingerprint, hence the precondition: some run of the model has these fingerprints (with A-FP and
-// A-PURE the greedy search of the real function then finds one).  The result is such a run.
-impl<State, Action> Path<State, Action> {
-    #[verifier::external_body]
-    fn from_fingerprints<M>(model: &M, fingerprints: VecDeque<Fingerprint>) -> (p: Self)
-        where M: Model<State = State, Action = Action>, M::State: Hash
-        requires
-            exists|ss: Seq<State>| is_chain(*model, ss) && #[trigger] has_fps(ss, fingerprints@),
-        ensures
-            is_chain(*model, path_states(p)),
-            has_fps(path_states(p), fingerprints@),
-            forall|i: int| 0 <= i < p.0@.len() - 1 ==> (#[trigger] p.0@[i]).1.is_some()
-                && model.acts(p.0@[i].0).contains(p.0@[i].1.unwrap())
-                && model.nxt(p.0@[i].0, p.0@[i].1.unwrap()) == Some(p.0@[i + 1].0),
-            p.0@.last().1.is_none(),
-    { unimplemented!() }
-}
+// The ASSUMED contract of `Path::from_fingerprints` (used by the checker units CB / OND, which only call it)
+// lives in prelude/model_path_assumed.rs: include it right after this file.  Unit PATH, which VERIFIES the real
+// function against that contract, includes this file without it.
 
 // R12: `Box<dyn CheckerVisitor<M> + Send + Sync>` becomes the opaque `VisitorBox<M>`; the only effect of
 // `visit` is that it appends the path it is shown to the visit log (an extra `&mut VisitLog<M>` that
@@ -264,3 +248,38 @@ impl<T> DrainAll<T> {
 fn drain_all<T>(v: &mut Vec<T>) -> (r: DrainAll<T>)
     ensures r@ == old(v)@, final(v)@.len() == 0
 { DrainAll { v: v.drain(..).collect() } }
+
+// R11D: `P.drain(..n).collect::<Vec<_>>()` on a VecDeque (std: "Removes the specified range from the deque in
+// bulk, returning all removed elements as an iterator ... Panics if the end point is greater than the length").
+#[verifier::external_body]
+fn drain_front<T>(v: &mut VecDeque<T>, n: usize) -> (r: Vec<T>)
+    requires n <= old(v)@.len()
+    ensures r@ == old(v)@.subrange(0, n as int), final(v)@ == old(v)@.subrange(n as int, old(v)@.len() as int)
+{ v.drain(..n).collect::<Vec<_>>() }
+
+// R7 / A-SEQ: `&DashSet<K, _>` becomes `&mut SeqSet<K>`: a plain set with sequential semantics.
+// dashmap: "Inserts a key into the set. Returns true if the key was not already in the set."
+#[verifier::external_body]
+#[verifier::reject_recursive_types(K)]
+struct SeqSet<K> { k: Vec<K> }
+impl<K> SeqSet<K> {
+    uninterp spec fn view(&self) -> Set<K>;
+    #[verifier::external_body]
+    fn insert(&mut self, k: K) -> (r: bool)
+        ensures final(self)@ == old(self)@.insert(k), r == !old(self)@.contains(k),
+    { unimplemented!() }
+    #[verifier::external_body]
+    fn contains(&self, k: &K) -> (r: bool) ensures r == self@.contains(*k) { unimplemented!() }
+    #[verifier::external_body]
+    fn len(&self) -> (r: usize) ensures r == self@.len() { unimplemented!() }
+}
+
+// R6S: the symmetry function `fn(&S) -> S` as an opaque value; A-PURE: calling it is a pure total function.
+#[verifier::external_body]
+#[verifier::reject_recursive_types(S)]
+struct ReprFn<S> { f: fn(&S) -> S }
+uninterp spec fn repr_apply<S>(f: ReprFn<S>, s: S) -> S;
+#[verifier::external_body]
+fn call_repr<S>(f: &ReprFn<S>, s: &S) -> (r: S)
+    ensures r == repr_apply(*f, *s)
+{ (f.f)(s) }
